@@ -1441,6 +1441,108 @@ def o_graph_bigtile(case, T):
         T.nontrivial((case["setup"], t, stt, case["spx"]))
 
 
+# ============================================================================ rasters that reach the rim of their projection
+def e_graph_rim(tier):
+    """Standard global / edge-of-domain grids: the complete EASE-Grid 2.0 (EPSG:6933, rows up to the latitude where the
+    projection ends), MODIS sinusoidal tiles whose corners lie outside the sinusoidal lens - and a lon/lat grid to go
+    with them, in both roles."""
+    T_ = 1111950.5197
+    setups = [
+        ("ease2_36km_global", "6933", [406, 964], [36032.220840584, 0.0, -17367530.45, 0.0, -36032.220840584, 7314540.83]),
+        ("ease2_36km_north_rows", "6933", [40, 964], [36032.220840584, 0.0, -17367530.45, 0.0, -36032.220840584, 7314540.83]),
+        ("modis_h11v02", "sinu", [120, 120], [T_ / 120, 0.0, -20015109.354 + 11 * T_, 0.0, -T_ / 120, 10007554.677 - 2 * T_]),
+        ("modis_h24v02", "sinu", [120, 120], [T_ / 120, 0.0, -20015109.354 + 24 * T_, 0.0, -T_ / 120, 10007554.677 - 2 * T_]),
+        ("modis_h17v15", "sinu", [120, 120], [T_ / 120, 0.0, -20015109.354 + 17 * T_, 0.0, -T_ / 120, 10007554.677 - 15 * T_]),
+    ]
+    for name, lab, shape, aff in setups:
+        for role in ("src", "dst"):
+            for t in ((20, 60) if tier == "quick" else (10, 20, 40, 60, 203)):
+                yield {"name": name, "label": lab, "shape": shape, "affine": aff, "role": role, "t": t}
+
+
+def o_graph_rim(case, T):
+    """'is empty rather than an error' / 'lists every source tile' for rasters whose buffered outline leaves the domain
+    of their projection: no exception, and every destination tile whose centre maps well inside the source has the
+    source tile under that centre among its sources."""
+    from affine import Affine
+
+    from odc.geo.geobox import GeoBox, GeoboxTiles
+
+    lab = case["label"]
+    A = Affine(*case["affine"])
+    ny, nx = case["shape"]
+    rim = GeoBox((ny, nx), A, mk_crs_spec({"label": lab, "spell": "proj" if lab == "sinu" else "int"}))
+    # the raster itself must lie inside the domain of its projection (its *buffered* outline need not): MODIS tiles
+    # whose corners are outside the sinusoidal lens are a different problem (not decided here, see DESIGN 10.8)
+    ring = _apply(A, _ring_dense([[0, 0], [nx, 0], [nx, ny], [0, ny]], 31))
+    LL = _project(lab, "4326", ring)
+    ok_ = np.isfinite(LL).all()
+    if ok_:
+        back = _project("4326", lab, LL)
+        off_ = np.abs(back - ring).max(axis=1) if np.isfinite(back).all() else np.full(len(ring), np.inf)
+        # a point that does not come back lies outside the projection's domain (PROJ wraps its longitude); points
+        # exactly on the +-180 meridian may come back on the other side of the world
+        ok_ = bool(((off_ <= 1.0) | (np.abs(LL[:, 0]) > 179.999999)).all())
+    if not ok_:
+        T.exclude("raster_itself_outside_projection_domain")
+        return
+    # lon/lat partner covering the raster's centre region at a comparable pixel size
+    cx, cy = A * (nx / 2, ny / 2)
+    lon, lat = _tr(lab, "4326").transform(cx, cy)
+    res = 0.25 if "ease2" in case["name"] else 0.05
+    if "global" in case["name"]:
+        ll = GeoBox((720, 1440), Affine(0.25, 0, -180.0, 0, -0.25, 90.0), 4326)
+    else:
+        w = 40.0 if "ease2" in case["name"] else 14.0
+        ll = GeoBox((int(w / res), int(2 * w / res)), Affine(res, 0, round(lon) - w, 0, -res, min(89.0, round(lat) + w / 2)), 4326)
+    t = case["t"]
+    if case["role"] == "src":
+        src, dst, ls, ld = rim, ll, lab, "4326"
+    else:
+        src, dst, ls, ld = ll, rim, "4326", lab
+    dgbt = GeoboxTiles(dst, (t, t))
+    sgbt = GeoboxTiles(src, (max(8, t // 2), max(8, t // 2)))
+    res_ = dgbt.grid_intersect(sgbt)
+    require(isinstance(res_, dict), "grid_intersect returned %s", type(res_).__name__)
+    st_ = max(8, t // 2)
+    dny, dnx = (int(v) for v in dst.shape)
+    sny, snx = (int(v) for v in src.shape)
+    nty, ntx = -(-dny // t), -(-dnx // t)
+    iy, ix = np.divmod(np.arange(nty * ntx), ntx)
+    ccx = (ix * t + np.minimum(dnx, (ix + 1) * t)) / 2.0
+    ccy = (iy * t + np.minimum(dny, (iy + 1) * t)) / 2.0
+    W = _apply(dst.affine, np.stack([ccx, ccy], axis=1))
+    P = _apply(~src.affine, _project(ld, ls, W))
+    listed = {k_: {tuple(int(v) for v in g) for g in v_} for k_, v_ in res_.items()}
+    ndec, missing = 0, []
+    for k_ in range(len(ccx)):
+        x, y = P[k_]
+        if not (math.isfinite(x) and math.isfinite(y)):
+            continue
+        # the centre of the destination tile lies inside the source, 2 source pixels from its border and from a tile seam
+        if not (2 < x < snx - 2 and 2 < y < sny - 2) or min(x % st_, st_ - x % st_, y % st_, st_ - y % st_) < 1.0:
+            continue
+        # tiles at the antimeridian are another subject (a vertex at lon -180 may come back as +180; dateline handling
+        # is not part of this property): keep 10 degrees away from it
+        x0_, x1_, y0_, y1_ = ix[k_] * t, min(dnx, (ix[k_] + 1) * t), iy[k_] * t, min(dny, (iy[k_] + 1) * t)
+        cl = _project(ld, "4326", _apply(dst.affine, np.array([[x0_, y0_], [x1_, y0_], [x1_, y1_], [x0_, y1_], [ccx[k_], ccy[k_]]], dtype="float64")))[:, 0]
+        if not np.isfinite(cl).all() or (np.abs(cl) > 178.0).any() or np.ptp(cl) > 170.0:
+            continue
+        # round trip through the projection must come back (guards against points outside the projection's domain)
+        back = _apply(~dst.affine, _project(ls, ld, _apply(src.affine, np.array([[x, y]]))))[0]
+        if not (np.isfinite(back).all() and abs(back[0] - ccx[k_]) < 0.01 and abs(back[1] - ccy[k_]) < 0.01):
+            continue
+        ndec += 1
+        want = (int(y // st_), int(x // st_))
+        if want not in listed.get((int(iy[k_]), int(ix[k_])), ()):
+            missing.append(((int(iy[k_]), int(ix[k_])), want))
+    require(not missing, "%s as %s (tiles %d px) against a lon/lat grid: %d of %d destination tiles whose centre maps well inside the source do not list the source tile under their centre, e.g. (dst tile, src tile) %r",
+            case["name"], case["role"], t, len(missing), ndec, missing[:3])
+    T.cls("rim:" + case["name"])
+    T.cls("role:" + case["role"])
+    T.nontrivial((case["name"], case["role"], t))
+
+
 # ============================================================================ locate
 def _compositions(n):
     for mask in range(1 << (n - 1)):
@@ -1608,6 +1710,7 @@ def build(chk: Check) -> None:
     chk.sub("graph_rotated", o_graph_rot, strategy=s_graph_rot(), n={"quick": 300, "thorough": 12000}, budget_s={"quick": 60, "thorough": 110})
     chk.sub("graph_continental_cover", o_graph_cover, strategy=s_graph_cover(), n={"quick": 24, "thorough": 800}, budget_s={"quick": 70, "thorough": 300}, shrink=False)
     chk.sub("graph_big_lonlat_tiles", o_graph_bigtile, strategy=s_graph_bigtile(), n={"quick": 24, "thorough": 800}, budget_s={"quick": 70, "thorough": 300}, shrink=False)
+    chk.sub("graph_projection_rim", o_graph_rim, enum=e_graph_rim, exhaustive_tiers=("quick", "thorough"), budget_s={"quick": 80, "thorough": 400})
     chk.sub("graph_continental", o_graph_other, strategy=s_graph_other(continental=True), n={"quick": 150, "thorough": 6000}, budget_s={"quick": 60, "thorough": 200}, shrink=False)
     chk.sub("graph_other_crs", o_graph_other, strategy=s_graph_other(), n={"quick": 400, "thorough": 18000}, budget_s={"quick": 60, "thorough": 170})
     chk.sub("locate_enum", o_locate, enum=e_locate, exhaustive_tiers=("thorough",), budget_s={"quick": 60, "thorough": 90})
